@@ -1,4 +1,5 @@
 """R-RESET, R-SRCCONST (C05)."""
+import re
 from . import compdb
 from .prog import AnalysisBroken, key, strip, walk, const_value, resolve_key, single_assignment_locals
 from .rules_cg import conversion_roots
@@ -24,6 +25,8 @@ def r_reset(P, chk):
     reset = P.func("mmd_engine_reset", "mmd.c")
     n = 0
 
+    array_drains = {}
+
     def cleared_in(fn):
         """Access paths (resolved through local aliases) that fn empties: `X->size = 0`, pop-until-empty loops,
         NULL/0 stores, uthash delete iteration."""
@@ -39,6 +42,20 @@ def r_reset(P, chk):
                     out.add(l)
             elif x["k"] == "CallExpr" and x.get("callee") == "stack_pop":
                 tgt = resolve_key(fn, x["c"][1])
+                ma = re.match(r"^\(?(\w+)\[\w+\]\)?$", tgt.replace(" ", ""))
+                if ma:
+                    # a local array of containers drained in a loop over its index: every element that was stored in it
+                    elems = [resolve_key(fn, y["c"][1]) for y in fn.walk() if y["k"] == "BinaryOperator" and y["op"] == "=" and
+                             re.match(r"^\(?%s\[\d+\]\)?$" % re.escape(ma.group(1)), key(y["c"][0]).replace(" ", ""))]
+                    for y in fn.walk():
+                        if y["k"] == "VarDecl" and y.get("n") == ma.group(1) and y.get("c") and y["c"][0] is not None and y["c"][0]["k"] == "InitListExpr":
+                            elems += [resolve_key(fn, z) for z in (y["c"][0].get("c") or ()) if z is not None]
+                    for a in fn.ancestors(x):
+                        cond = a["c"][0] if a["k"] == "WhileStmt" else (a["c"][1] if a["k"] == "ForStmt" else None)
+                        if cond is not None and resolve_key(fn, cond).replace("(", "").replace(" ", "").startswith(tgt.replace(" ", "").strip("()") + "->size"):
+                            out.update(elems)
+                            array_drains.setdefault(id(fn), {}).update({e2: x for e2 in elems})
+                    continue
                 for a in fn.ancestors(x):
                     cond = None
                     if a["k"] == "WhileStmt":
@@ -102,6 +119,17 @@ def r_reset(P, chk):
             for i, q in enumerate(h.params):
                 if q[0] in hc and i < len(c["c"]) - 1 and resolve_key(reset, c["c"][1 + i]) == k:
                     clear_blocks.add(rpos[c["i"]][0])      # a helper that empties the container it is handed
+
+        ad = array_drains.get(id(reset), {}).get(k)
+        if ad is not None:
+            z = ad
+            while z is not None and z.get("i") not in rpos:
+                z = reset.parent(z)
+            if z is not None:
+                clear_blocks.add(rpos[z["i"]][0])      # drained through a local array of containers
+            # the counted loop over the array always runs (constant bounds): the path formulation has nothing more to say
+            chk.obligation(rid, "mmd_engine.%s is drained through a local array of containers" % name, True, nontrivial=False)
+            continue
 
         def nonempty(t_, k=k):
             t2 = strip(t_)
@@ -497,7 +525,25 @@ def r_engconf(P, chk):
             lk = key(x["c"][0])
             saves = {nm for nm, init in single_assignment_locals(f).items() if key(init) == lk}
             restores = [y for y in f.walk() if y["k"] == "BinaryOperator" and y["op"] == "=" and key(y["c"][0]) == lk and key(y["c"][1]) in saves]
-            if restores and (x in restores or any(f.cfg.postdominates(r["i"], x["i"]) for r in restores)):
+            def all_paths_restore():
+                fp = f.cfg.positions()
+                if x.get("i") not in fp:
+                    return False
+                rb = {fp[r["i"]][0] for r in restores if r.get("i") in fp}
+                b0 = fp[x["i"]][0]
+                if b0 in rb:
+                    return True
+                seen, st = set(), list(f.cfg.blocks[b0].rsucc)
+                while st:
+                    b = st.pop()
+                    if b in seen or b in rb:
+                        continue
+                    seen.add(b)
+                    if b == f.cfg.exit:
+                        return False
+                    st.extend(f.cfg.blocks[b].rsucc)
+                return True
+            if restores and (x in restores or any(f.cfg.postdominates(r["i"], x["i"]) for r in restores) or all_paths_restore()):
                 chk.obligation(rid, desc + ", saved before and restored on every path out", True)
                 continue
             if fld in ENGCONF_REVIEWED:
